@@ -46,6 +46,16 @@ def mergeMetadata {β : Type} (md : List (Option (List (Nat × β)))) (offsets :
     | none => []
     | some l => l.map fun kv => (kv.1 + p.2, kv.2)).flatten
 
+/-- `write_cluster_data` with the actual offsets: the rows of probe `k` whose cluster id lies in the
+probe's id range (`c ≤ max(spike_clusters_k)`; rows of higher ids have no spike and no place in the
+merged numbering) are renumbered by `idOffsets`; `none` = the probe has no such file -/
+def mergeClusterData {β : Type} (md : List (Option (List (Nat × β)))) (ids : List (List Nat)) :
+    List (Nat × β) :=
+  (((md.zip ids).zip (idOffsets ids)).map fun p =>
+    match p.1.1 with
+    | none => []
+    | some l => (l.filter fun kv => kv.1 ≤ p.1.2.foldl max 0).map fun kv => (kv.1 + p.2, kv.2)).flatten
+
 end PhyVerif.C11
 
 namespace PhyVerif.C11
